@@ -230,3 +230,30 @@ def run(ctx):
             ctx.ob('MARKER-ARM', '%s@%d' % (f.name, x['l']), ok, f.loc(x), '`%s`: then-arm assigns %s, else-arm assigns %s%s' % (f.s(cn)[:40], sorted(a) or 'nothing', sorted(b) or 'nothing',
                    '' if ok else ': one byte order gets handle state the other does not'), None)
     ctx.require(n_ma >= 6, 'only %d marker if/else arms found' % n_ma)
+
+    ctx.rule('STDIO-OWN', 'psf_set_stdio puts descriptor 0 / 1 - which the library did not open - into psf->file.filedes: on every path on which it does so it also sets '
+             'psf->file.do_not_close_descriptor, so that sf_close leaves the process\'s stdin / stdout open (psf_close_fd is only skipped under that flag); '
+             'sf_open_fd derives the flag from close_desc', floor=3)
+    ss = prog.fn('psf_set_stdio', 'file_io.c')
+    n_so = 0
+    for lv, a, r in assigned_lvalues(ss):
+        if lv != 'psf->file.filedes' or r is None or ss.unwrap(r).get('v') not in (0, 1, 2):
+            continue
+        n_so += 1
+        # a store of 1 / SF_TRUE into the flag in the same switch arm (between this statement and the arm's break), or dominating the function's exit after it
+        flag = [a2 for lv2, a2, r2 in assigned_lvalues(ss) if lv2 == 'psf->file.do_not_close_descriptor' and r2 is not None and ss.unwrap(r2).get('v') not in (0, None)]
+        ok = False
+        for a2 in flag:
+            pa, pb = ss.cfg.point(a), ss.cfg.point(a2)
+            if pa is None or pb is None:
+                continue
+            # every path from the descriptor store to the exit passes the flag store
+            if ss.cfg.must_pass(pa, [a2])[0] or (pa[0] == pb[0]):
+                ok = True
+        ctx.ob('STDIO-OWN', 'psf_set_stdio:filedes=%d' % ss.unwrap(r)['v'], ok, ss.loc(a), 'descriptor %d is handed to the handle %s' % (ss.unwrap(r)['v'], 'together with do_not_close_descriptor' if ok else
+               'but do_not_close_descriptor stays 0: sf_close closes the process\'s standard stream (the next file opened gets that descriptor number)'), None)
+    ofd = prog.fn('sf_open_fd', 'sndfile.c')
+    okfd = any(lv == 'psf->file.do_not_close_descriptor' and r is not None and 'close_desc' in ofd.s(r) for lv, a, r in assigned_lvalues(ofd))
+    n_so += 1
+    ctx.ob('STDIO-OWN', 'sf_open_fd', okfd, ofd.loc(ofd.body), 'do_not_close_descriptor is %s' % ('derived from close_desc' if okfd else 'NOT derived from close_desc'), None)
+    ctx.require(n_so >= 3, 'psf_set_stdio: only %d descriptor hand-overs found' % n_so)
